@@ -211,12 +211,18 @@ func (p List) Struct(i int) Struct {
 	if !ok {
 		return Struct{}
 	}
+	depthLimit := p.depthLimit
+	if depthLimit > 0 {
+		// Saturate: a list read at the last permitted level has a limit
+		// of zero, and zero minus one would wrap to "unlimited".
+		depthLimit--
+	}
 	return Struct{
 		seg:        p.seg,
 		off:        addr,
 		size:       p.size,
 		flags:      isListMember,
-		depthLimit: p.depthLimit - 1,
+		depthLimit: depthLimit,
 	}
 }
 
